@@ -217,11 +217,25 @@ def parse_assumptions(out):
 # Evaluating the model inside Coq (correspondence)
 # ----------------------------------------------------------------------------
 
+COQC_MEM_GB = float(os.environ.get("VERIF_COQC_MEM_GB", "6"))
+
+
+def _limit_memory():
+    # a case file that needs more than this is itself a symptom (e.g. traces blown up by a changed
+    # implementation): coqc then fails, the driver sees a case-file error and reports it (fail closed)
+    import resource
+    lim = int(COQC_MEM_GB * (1 << 30))
+    try:
+        resource.setrlimit(resource.RLIMIT_AS, (lim, lim))
+    except (ValueError, OSError):
+        pass
+
+
 def coqc_file(path, timeout=COQC_TIMEOUT):
     p = subprocess.run(["timeout", str(timeout), "coqc", "-Q", COQ, "PySMT",
                         "-w", "-notation-overridden,-deprecated-hint-without-locality,-deprecated-instance-without-locality", path],
                        stdout=subprocess.PIPE, stderr=subprocess.STDOUT, text=True,
-                       cwd=os.path.dirname(path))
+                       cwd=os.path.dirname(path), preexec_fn=_limit_memory)
     return p.returncode, p.stdout
 
 
@@ -311,6 +325,11 @@ class Check(object):
         self._distinct = set()
         self.level = "proof"
         self.max_reports = int(os.environ.get("VERIF_MAX_REPORTS", "8"))
+        # fail closed, never die: drivers poll enough() in their generation loops and stop early;
+        # start_watchdog() turns a resource blow-up into a reported VIOLATION and exit 1
+        self.max_violations = int(os.environ.get("VERIF_MAX_VIOLATIONS", "50"))
+        self.last_input = None        # drivers may keep the input being processed here (for the watchdog)
+        self._watchdog = None
         for f in os.listdir(self.dir):
             if f.startswith("replay_"):
                 os.remove(os.path.join(self.dir, f))
@@ -390,6 +409,58 @@ class Check(object):
         self.proof_failed = failed
         self.axioms = axioms
         return ok
+
+    # -- early stop / watchdog ---------------------------------------------
+    def enough(self, extra=0):
+        """True once max_violations violations (plus `extra` driver-side records such as
+        correspondence disagreements) have been recorded: stop generating, report, exit 1."""
+        return len(self.violations) + extra >= self.max_violations
+
+    def start_watchdog(self, rss_gb=None, wall_s=None, period=2.0):
+        """Background thread: when this process' RSS exceeds rss_gb or the run lasts longer than
+        wall_s, report `VIOLATION ... no-failing-input-found` naming the blow-up (replay = the
+        driver's last_input), write the evidence and exit 1.  Defaults: 4 GB; 15 min (quick) /
+        none (thorough); VERIF_WATCHDOG_RSS_GB / VERIF_WATCHDOG_WALL_S override."""
+        import threading
+        if rss_gb is None:
+            rss_gb = float(os.environ.get("VERIF_WATCHDOG_RSS_GB", "4"))
+        if wall_s is None:
+            wall_s = float(os.environ.get("VERIF_WATCHDOG_WALL_S", "900" if self.tier == "quick" else "0"))
+
+        def rss_bytes():
+            try:
+                with open("/proc/self/status") as f:
+                    for line in f:
+                        if line.startswith("VmRSS:"):
+                            return int(line.split()[1]) * 1024
+            except (OSError, ValueError):
+                pass
+            return 0
+
+        def loop():
+            while True:
+                time.sleep(period)
+                rss, wall = rss_bytes(), time.time() - self.t0
+                why = None
+                if rss_gb and rss > rss_gb * (1 << 30):
+                    why = "resident memory %.1f GB > %.1f GB" % (rss / float(1 << 30), rss_gb)
+                elif wall_s and wall > wall_s:
+                    why = "wall time %.0f s > %.0f s" % (wall, wall_s)
+                if why:
+                    try:
+                        self.max_reports = max(self.max_reports, len(self.violations) + 1)
+                        self.violation({"kind": "obligation",
+                                        "theorem_or_correspondence": "resource blow-up in the %s check (%s): the run was stopped; "
+                                                                     "nothing is established by it" % (self.prop, why),
+                                        "last_input": self.last_input}, found_input=False)
+                        self.cov["watchdog"] = why
+                        self.finish(["(run aborted by the watchdog)"], [], self.cov.get("rule", ""))
+                    finally:
+                        os._exit(1)
+        t = threading.Thread(target=loop, name="verif-watchdog", daemon=True)
+        t.start()
+        self._watchdog = t
+        return t
 
     # -- reporting ---------------------------------------------------------
     def replay_path(self):
